@@ -42,7 +42,7 @@ def walk(sc, obs):
             continue
         if op[0] in (20, 21, 1, 2):
             amt, (b2, q2) = sx.q(o[0]), qtabs(o[1])
-        elif op[0] in (7, 8, 15):
+        elif op[0] in (7, 8, 15, 16):
             amt, (b2, q2) = None, qtabs(o[0])
         elif op[0] == 12:
             amt, (b2, q2) = None, qtabs(o[1])
@@ -302,7 +302,7 @@ def c16_quant_part(ctx):
         kb, qobjs = sc[1], sc[5]
         nonleaf = [i for i, o in enumerate(kb) if o[0] != 0]
         rnd = [[1, i] for i in nonleaf] + [[20, qi] for qi in range(len(qobjs))] + [[21, qi] for qi in reversed(range(len(qobjs)))] + [[2, i, -1] for i in reversed(nonleaf)]
-        sc[6] = rnd * 4 + [[7]] + rnd * 4
+        sc[6] = rnd * 4 + ([[16]] if rng.random() < 0.5 else []) + [[7]] + rnd * 4      # printing and state queries before the reset must leave no trace
         while len(sc) < 8:
             sc.append([])
         sc.append(len(rnd))
